@@ -1,0 +1,265 @@
+// Copyright 2020-2025 Buf Technologies, Inc.
+//
+// Licensed under the Apache License, Version 2.0 (the "License");
+// you may not use this file except in compliance with the License.
+// You may obtain a copy of the License at
+//
+//      http://www.apache.org/licenses/LICENSE-2.0
+//
+// Unless required by applicable law or agreed to in writing, software
+// distributed under the License is distributed on an "AS IS" BASIS,
+// WITHOUT WARRANTIES OR CONDITIONS OF ANY KIND, either express or implied.
+// See the License for the specific language governing permissions and
+// limitations under the License.
+
+//go:build verif
+
+package bufmodule
+
+// Contracts for the gocv verifier (see /verif/DESIGN.md). Comment-only.
+//
+// C10: workspace dependency resolution is exact and ambiguity is an error.
+//
+// Accessor purity (trusted): a Module / FileInfo / FullName is an immutable value seen through these accessors.
+//@ trusted pure func (Module) OpaqueID() (r)
+//@ trusted pure func (Module) Description() (r)
+//@ trusted pure func (Module) ModuleSet() (r)
+//@ trusted pure interface FileInfo
+//@ trusted pure interface bufparse.FullName
+//@ trusted pure interface Commit
+// Documented on CommitProvider: "If there is no error, the length of the Commits returned will match the length of the ModuleKeys."
+//@ trusted func (CommitProvider) GetCommitsForModuleKeys(ctx, moduleKeys) (r, err)
+//@   modifies heap
+//@   ensures err == nil ==> len(r) == len(moduleKeys)
+//
+//@ func (a *addedModule) OpaqueID() (r)
+//@   property C10
+//@   ensures a.remoteModuleKey != nil ==> r == a.remoteModuleKey.FullName().String()
+//@   ensures a.remoteModuleKey == nil ==> r == a.localModule.OpaqueID()
+//@ func (a *addedModule) IsLocal() (r)
+//@   property C10
+//@   ensures r <==> a.localModule != nil
+//@ func (a *addedModule) IsTarget() (r)
+//@   property C10
+//@   ensures r <==> a.isTarget
+//
+// Among candidates with one OpaqueID: a local module beats a remote (pinned) one; the first local one in input order wins.
+//@ func selectAddedModuleForOpaqueIDIgnoreTargeting(ctx, commitProvider, addedModules) (r, err)
+//@   property C10
+//@   modifies heap
+//@   reveal h_in
+//@   ensures local-first: forall i int :: 0 <= i && i < len(addedModules) && old(addedModules[i].localModule) != nil && (forall j int :: 0 <= j && j < i ==> old(addedModules[j].localModule) == nil) ==> err == nil && r == addedModules[i]
+//@   ensures local-beats-remote: (exists i int :: 0 <= i && i < len(addedModules) && old(addedModules[i].localModule) != nil) ==> err == nil && old(r.localModule) != nil
+//@   ensures first-local-exists: (exists i int :: 0 <= i && i < len(addedModules) && old(addedModules[i].localModule) != nil) ==> (exists a int :: 0 <= a && a < len(addedModules) && r == addedModules[a] && old(addedModules[a].localModule) != nil && (forall b int :: 0 <= b && b < a ==> old(addedModules[b].localModule) == nil))
+//@   ensures member: err == nil ==> h_in(addedModules, len(addedModules), r)
+//@   ensures error-only-for-remotes: err != nil ==> (forall i int :: 0 <= i && i < len(addedModules) ==> old(addedModules[i].localModule) == nil)
+//@   canary ensures err != nil
+//
+// Remote-only candidates: the result is one of the candidates (which one is decided by commit create time: not covered).
+//@ func selectRemoteAddedModuleForOpaqueIDIgnoreTargeting(ctx, commitProvider, addedModules) (r, err)
+//@   property C10
+//@   modifies heap
+//@   reveal h_in
+//@   ensures member: err == nil ==> h_in(addedModules, len(addedModules), r)
+//@   ensures single: len(addedModules) == 1 && old(addedModules[0].remoteModuleKey) != nil ==> err == nil && r == addedModules[0]
+//@   ensures empty-rejected: len(addedModules) == 0 ==> err != nil
+//@   ensures local-rejected: (exists i int :: 0 <= i && i < len(addedModules) && old(addedModules[i].remoteModuleKey) == nil) ==> err != nil
+//@   loop 0 invariant forall k int :: 0 <= k && k < $i ==> addedModules[k].remoteModuleKey != nil
+//@   loop 1 invariant forall j int :: 0 <= j && j < len(uniqueAddedModules) ==> (exists k uuid.UUID :: k in commitIDToAddedModules && len(commitIDToAddedModules[k]) > 0 && uniqueAddedModules[j] == commitIDToAddedModules[k][0])
+//@   loop 2 invariant exists j int :: 0 <= j && j < len(uniqueAddedModules) && uniqueAddedModule == uniqueAddedModules[j]
+//@   loop 2 invariant len(commits) == len(uniqueAddedModules)
+//
+// ToValuesMap groups the elements by key: every group is non-empty and consists of input elements.
+//@ func github.com/bufbuild/buf/private/pkg/slicesext.ToValuesMap(s, f) (r)
+//@   property C10
+//@   callback pure f
+//@   ensures groups: forall k K :: k in r ==> len(r[k]) > 0 && (forall j int :: 0 <= j && j < len(r[k]) ==> (exists jj int :: 0 <= jj && jj < len(s) && s[jj] == r[k][j]) && f(r[k][j]) == k)
+//@   loop 0 invariant forall k K :: k in m ==> len(m[k]) > 0 && (forall j int :: 0 <= j && j < len(m[k]) ==> (exists jj int :: 0 <= jj && jj < $i && s[jj] == m[k][j]) && f(m[k][j]) == k)
+//
+// Targets beat non-targets, then local beats remote, then input order.
+//@ func selectAddedModuleForOpaqueID(ctx, commitProvider, addedModules) (r, err)
+//@   property C10
+//@   modifies heap
+//@   reveal h_in
+//@   ensures target-local-first: forall i int :: 0 <= i && i < len(addedModules) && old(addedModules[i].isTarget) && old(addedModules[i].localModule) != nil && (forall j int :: 0 <= j && j < i ==> !(old(addedModules[j].isTarget) && old(addedModules[j].localModule) != nil)) ==> err == nil && r == addedModules[i]
+//@   ensures target-beats-non-target: err == nil && (exists i int :: 0 <= i && i < len(addedModules) && old(addedModules[i].isTarget)) ==> old(r.isTarget)
+//@   ensures no-target-local-first: (forall i int :: 0 <= i && i < len(addedModules) ==> !old(addedModules[i].isTarget)) ==> (forall i int :: 0 <= i && i < len(addedModules) && old(addedModules[i].localModule) != nil && (forall j int :: 0 <= j && j < i ==> old(addedModules[j].localModule) == nil) ==> err == nil && r == addedModules[i])
+//@   ensures only-target-selected: forall i int :: 0 <= i && i < len(addedModules) && old(addedModules[i].isTarget) && (forall j int :: 0 <= j && j < len(addedModules) && j != i ==> !old(addedModules[j].isTarget)) ==> err == nil && r == addedModules[i]
+//@   ensures member: err == nil ==> h_in(addedModules, len(addedModules), r)
+//@   canary ensures err != nil
+// several targets: the first local one among the targets is the first local target of the input
+//@   assert before "return selectAddedModuleForOpaqueIDIgnoreTargeting(ctx, commitProvider, targetAddedModules)" chain: forall a int :: 0 <= a && a < len(targetAddedModules) && targetAddedModules[a].localModule != nil && (forall b int :: 0 <= b && b < a ==> targetAddedModules[b].localModule == nil) ==> (exists i int :: 0 <= i && i < len(addedModules) && addedModules[i] == targetAddedModules[a] && addedModules[i].isTarget && (forall k int :: 0 <= k && k < i ==> !(addedModules[k].isTarget && addedModules[k].localModule != nil)))
+//
+// slicesext.Filter keeps exactly the elements satisfying f, in input order (stated position-wise so that
+// "first among equals" survives a chain of filters).
+//@ func github.com/bufbuild/buf/private/pkg/slicesext.Filter(s, f) (r)
+//@   property C10
+//@   callback pure f
+//@   ensures members: forall j int :: 0 <= j && j < len(r) ==> f(r[j])
+//@   ensures complete: forall i int :: 0 <= i && i < len(s) && f(s[i]) ==> (exists jj int :: 0 <= jj && jj < len(r) && r[jj] == s[i])
+//@   ensures order: forall j int :: 0 <= j && j < len(r) ==> (exists i int :: 0 <= i && i < len(s) && s[i] == r[j] && (forall k int :: 0 <= k && k < i && f(s[k]) ==> (exists jj int :: 0 <= jj && jj < j && r[jj] == s[k])))
+//@   ensures unique-match: forall i int :: 0 <= i && i < len(s) && f(s[i]) && (forall k int :: 0 <= k && k < len(s) && k != i ==> !f(s[k])) ==> len(r) == 1 && r[0] == s[i]
+//@   ensures no-match: (forall k int :: 0 <= k && k < len(s) ==> !f(s[k])) ==> len(r) == 0
+//@   loop 0 invariant forall j int :: 0 <= j && j < len(sf) ==> f(sf[j])
+//@   loop 0 invariant (forall k int :: 0 <= k && k < $i ==> !f(s[k])) ==> len(sf) == 0
+//@   loop 0 invariant forall i int :: 0 <= i && i < $i && f(s[i]) && (forall k int :: 0 <= k && k < $i && k != i ==> !f(s[k])) ==> len(sf) == 1 && sf[0] == s[i]
+//@   loop 0 invariant forall i int :: 0 <= i && i < $i && f(s[i]) ==> (exists jj int :: 0 <= jj && jj < len(sf) && sf[jj] == s[i])
+//@   loop 0 invariant forall j int :: 0 <= j && j < len(sf) ==> (exists i int :: 0 <= i && i < $i && s[i] == sf[j] && (forall k int :: 0 <= k && k < i && f(s[k]) ==> (exists jj int :: 0 <= jj && jj < j && sf[jj] == s[k])))
+//
+// ---- which module provides a file path (module_set.go) ----
+// Stat through a module is modelled as a deterministic function of (module, path) for the duration of one lookup (trusted).
+//@ trusted pure func (ModuleReadBucket) StatFileInfo(ctx, path) (r, err)
+//@ func (m *moduleSet) Modules() (r)
+//@   property C10
+//@   ensures len(r) == len(m.modules) && (forall i int :: 0 <= i && i < len(r) ==> r[i] == m.modules[i])
+//@ func (m *moduleSet) GetModuleForOpaqueID(opaqueID) (r)
+//@   property C10
+//@   ensures (opaqueID in m.opaqueIDToModule) ==> r == m.opaqueIDToModule[opaqueID]
+//@   ensures !(opaqueID in m.opaqueIDToModule) ==> r == nil
+//
+// A path provided by two modules with different OpaqueIDs is a DuplicateProtoPathError, by none is fs.ErrNotExist, by
+// modules of exactly one OpaqueID is that module; any other stat error is returned (the first one in module order).
+//@ func (m *moduleSet) getModuleForFilePathUncached(ctx, filePath) (r, err)
+//@   property C10
+//@   modifies heap
+//@   reveal h_serr, h_ok, h_absent
+//@   ensures other-error-returned: forall i int :: 0 <= i && i < len(old(m.modules)) && !h_ok(old(m.modules)[i], ctx, filePath) && !h_absent(old(m.modules)[i], ctx, filePath) && (forall j int :: 0 <= j && j < i ==> h_ok(old(m.modules)[j], ctx, filePath) || h_absent(old(m.modules)[j], ctx, filePath)) ==> r == nil && err == h_serr(old(m.modules)[i], ctx, filePath)
+//@   ensures none-is-not-exist: (forall i int :: 0 <= i && i < len(old(m.modules)) ==> h_absent(old(m.modules)[i], ctx, filePath)) ==> r == nil && err != nil && typeOf(err) == typeId(*fs.PathError) && cast(*fs.PathError, err).Err == fs.ErrNotExist && cast(*fs.PathError, err).Path == filePath
+//@   ensures duplicate-is-error: (forall i int :: 0 <= i && i < len(old(m.modules)) ==> h_ok(old(m.modules)[i], ctx, filePath) || h_absent(old(m.modules)[i], ctx, filePath)) && (exists i int, j int :: 0 <= i && i < len(old(m.modules)) && 0 <= j && j < len(old(m.modules)) && h_ok(old(m.modules)[i], ctx, filePath) && h_ok(old(m.modules)[j], ctx, filePath) && old(m.modules)[i].OpaqueID() != old(m.modules)[j].OpaqueID()) ==> r == nil && err != nil && typeOf(err) == typeId(*DuplicateProtoPathError) && cast(*DuplicateProtoPathError, err).ProtoPath == filePath
+//@   ensures unique-provider: forall i int :: 0 <= i && i < len(old(m.modules)) && h_ok(old(m.modules)[i], ctx, filePath) && (forall j int :: 0 <= j && j < len(old(m.modules)) ==> (h_ok(old(m.modules)[j], ctx, filePath) && old(m.modules)[j].OpaqueID() == old(m.modules)[i].OpaqueID()) || h_absent(old(m.modules)[j], ctx, filePath)) ==> err == nil && (old(m.modules)[i].OpaqueID() in old(m.opaqueIDToModule) ==> r == old(m.opaqueIDToModule)[old(m.modules)[i].OpaqueID()]) && (!(old(m.modules)[i].OpaqueID() in old(m.opaqueIDToModule)) ==> r == nil)
+//@   ensures success-means-unique: err == nil ==> (exists i int :: 0 <= i && i < len(old(m.modules)) && h_ok(old(m.modules)[i], ctx, filePath) && (old(m.modules)[i].OpaqueID() in old(m.opaqueIDToModule) ==> r == old(m.opaqueIDToModule)[old(m.modules)[i].OpaqueID()]) && (forall j int :: 0 <= j && j < len(old(m.modules)) && h_ok(old(m.modules)[j], ctx, filePath) ==> old(m.modules)[j].OpaqueID() == old(m.modules)[i].OpaqueID()))
+//@   ensures errors-not-swallowed: err == nil ==> (forall j int :: 0 <= j && j < len(old(m.modules)) ==> h_ok(old(m.modules)[j], ctx, filePath) || h_absent(old(m.modules)[j], ctx, filePath))
+//@   canary ensures err != nil
+//@   canary ensures err == nil
+//@   loop 0 invariant matchingOpaqueIDToModule != nil
+//@   loop 0 invariant forall j int :: 0 <= j && j < $i ==> h_ok(m.modules[j], ctx, filePath) || h_absent(m.modules[j], ctx, filePath)
+//@   loop 0 invariant forall j int :: 0 <= j && j < $i && h_ok(m.modules[j], ctx, filePath) ==> m.modules[j].OpaqueID() in matchingOpaqueIDToModule
+//@   loop 0 invariant forall k string :: k in matchingOpaqueIDToModule ==> (exists j int :: 0 <= j && j < $i && h_ok(m.modules[j], ctx, filePath) && m.modules[j].OpaqueID() == k)
+//@   loop 0 invariant (exists a string, b string :: a in matchingOpaqueIDToModule && b in matchingOpaqueIDToModule && a != b) ==> len(matchingOpaqueIDToModule) >= 2
+//@   loop 0 invariant len(matchingOpaqueIDToModule) >= 2 ==> (exists a string, b string :: a in matchingOpaqueIDToModule && b in matchingOpaqueIDToModule && a != b)
+//@   loop 1 invariant (exists k string :: k in $visited) ==> matchingOpaqueID in matchingOpaqueIDToModule
+//
+// ---- protoFileTracker (proto_file_tracker.go) ----
+//@ func newProtoFileTracker() (r)
+//@   property C10
+//@   ensures r != nil && r.opaqueIDToProtoFileExists != nil && len(r.opaqueIDToProtoFileExists) == 0 && r.protoPathToOpaqueIDMap != nil && len(r.protoPathToOpaqueIDMap) == 0 && r.opaqueIDToDescription != nil
+//@   ensures !old(allocated(r))
+//
+// A .proto file is recorded under BOTH its path and the OpaqueID of its module (so that the same path coming from two
+// modules is visible to validate); other files are ignored.
+//@ func (t *protoFileTracker) trackFileInfo(fileInfo)
+//@   property C10
+//@   modifies heap protoFileTracker.opaqueIDToProtoFileExists, heap protoFileTracker.protoPathToOpaqueIDMap, heap protoFileTracker.opaqueIDToDescription
+//@   requires t != nil && t.opaqueIDToProtoFileExists != nil && t.protoPathToOpaqueIDMap != nil && t.opaqueIDToDescription != nil
+//@   ensures non-proto-ignored: fileInfo.FileType() != FileTypeProto ==> t.protoPathToOpaqueIDMap == old(t.protoPathToOpaqueIDMap) && t.opaqueIDToProtoFileExists == old(t.opaqueIDToProtoFileExists)
+//@   ensures proto-tracked-by-path-and-module: fileInfo.FileType() == FileTypeProto ==> (fileInfo.Path() in t.protoPathToOpaqueIDMap) && (fileInfo.Module().OpaqueID() in t.protoPathToOpaqueIDMap[fileInfo.Path()])
+//@   ensures path-set: fileInfo.FileType() == FileTypeProto ==> (forall p string :: (p in t.protoPathToOpaqueIDMap) <==> (p in old(t.protoPathToOpaqueIDMap) || p == fileInfo.Path()))
+//@   ensures other-paths-untouched: forall p string :: p != fileInfo.Path() ==> t.protoPathToOpaqueIDMap[p] == old(t.protoPathToOpaqueIDMap)[p]
+//@   ensures ids-of-path: fileInfo.FileType() == FileTypeProto ==> (forall x string :: (x in t.protoPathToOpaqueIDMap[fileInfo.Path()]) <==> ((fileInfo.Path() in old(t.protoPathToOpaqueIDMap) && x in old(t.protoPathToOpaqueIDMap)[fileInfo.Path()]) || x == fileInfo.Module().OpaqueID()))
+//@   ensures id-count: fileInfo.FileType() == FileTypeProto ==> len(t.protoPathToOpaqueIDMap[fileInfo.Path()]) == ite(fileInfo.Path() in old(t.protoPathToOpaqueIDMap), len(old(t.protoPathToOpaqueIDMap)[fileInfo.Path()]) + ite(fileInfo.Module().OpaqueID() in old(t.protoPathToOpaqueIDMap)[fileInfo.Path()], 0, 1), 1)
+//@   ensures module-has-proto: fileInfo.FileType() == FileTypeProto ==> t.opaqueIDToProtoFileExists == put(old(t.opaqueIDToProtoFileExists), fileInfo.Module().OpaqueID(), true)
+//@   ensures stay-allocated: t.opaqueIDToProtoFileExists != nil && t.protoPathToOpaqueIDMap != nil && t.opaqueIDToDescription != nil
+//@   ensures other-trackers-untouched: forall u *protoFileTracker :: u != t ==> u.protoPathToOpaqueIDMap == old(u.protoPathToOpaqueIDMap) && u.opaqueIDToProtoFileExists == old(u.opaqueIDToProtoFileExists) && u.opaqueIDToDescription == old(u.opaqueIDToDescription)
+//
+//@ func (t *protoFileTracker) trackModule(module)
+//@   property C10
+//@   modifies heap protoFileTracker.opaqueIDToProtoFileExists, heap protoFileTracker.opaqueIDToDescription
+//@   requires t != nil && t.opaqueIDToProtoFileExists != nil && t.opaqueIDToDescription != nil
+//@   ensures tracked: module.OpaqueID() in t.opaqueIDToProtoFileExists
+//@   ensures flag-kept: t.opaqueIDToProtoFileExists[module.OpaqueID()] == (module.OpaqueID() in old(t.opaqueIDToProtoFileExists) && old(t.opaqueIDToProtoFileExists)[module.OpaqueID()])
+//@   ensures others-kept: forall k string :: k != module.OpaqueID() ==> ((k in t.opaqueIDToProtoFileExists) <==> (k in old(t.opaqueIDToProtoFileExists))) && t.opaqueIDToProtoFileExists[k] == old(t.opaqueIDToProtoFileExists)[k]
+//@   ensures stay-allocated: t.opaqueIDToProtoFileExists != nil && t.opaqueIDToDescription != nil
+//@   ensures other-trackers-untouched: forall u *protoFileTracker :: u != t ==> u.opaqueIDToProtoFileExists == old(u.opaqueIDToProtoFileExists) && u.opaqueIDToDescription == old(u.opaqueIDToDescription)
+// validate reports an error exactly when some tracked module has no .proto file or some .proto path is recorded
+// for two different OpaqueIDs (a path served by two modules is never resolved silently).
+//@ func (t *protoFileTracker) validate() (err)
+//@   property C10
+//@   modifies heap
+//@   ensures duplicate-path-is-error: (exists p string :: p in old(t.protoPathToOpaqueIDMap) && len(old(t.protoPathToOpaqueIDMap)[p]) > 1) ==> err != nil
+//@   ensures module-without-proto-is-error: (exists id string :: id in old(t.opaqueIDToProtoFileExists) && !old(t.opaqueIDToProtoFileExists)[id]) ==> err != nil
+//@   ensures clean-is-nil: (forall p string :: p in old(t.protoPathToOpaqueIDMap) ==> len(old(t.protoPathToOpaqueIDMap)[p]) <= 1) && (forall id string :: id in old(t.opaqueIDToProtoFileExists) ==> old(t.opaqueIDToProtoFileExists)[id]) ==> err == nil
+//@   loop 0 invariant forall id string :: id in $visited && !old(t.opaqueIDToProtoFileExists)[id] ==> len(noProtoFilesErrors) > 0
+//@   loop 0 invariant len(noProtoFilesErrors) > 0 ==> (exists id string :: id in old(t.opaqueIDToProtoFileExists) && !old(t.opaqueIDToProtoFileExists)[id])
+//@   loop 0 invariant forall j int :: 0 <= j && j < len(noProtoFilesErrors) ==> noProtoFilesErrors[j] != nil
+//@   loop 1 invariant forall p string :: p in $visited && len(old(t.protoPathToOpaqueIDMap)[p]) > 1 ==> len(duplicateProtoPathErrors) > 0
+//@   loop 1 invariant len(duplicateProtoPathErrors) > 0 ==> (exists p string :: p in old(t.protoPathToOpaqueIDMap) && len(old(t.protoPathToOpaqueIDMap)[p]) > 1)
+//@   loop 1 invariant forall j int :: 0 <= j && j < len(duplicateProtoPathErrors) ==> duplicateProtoPathErrors[j] != nil
+//@   loop 2 invariant len(errs) == $i && (forall j int :: 0 <= j && j < len(errs) ==> errs[j] != nil)
+//@   loop 3 invariant len(errs) == len(noProtoFilesErrors) + $i && (forall j int :: 0 <= j && j < len(errs) ==> errs[j] != nil)
+//
+// ---- module dependencies (module_dep.go) ----
+// Trusted models of the two lookups used by the walk: both are deterministic read-only queries.
+//@ trusted pure func (ModuleSet) getModuleForFilePath(ctx, filePath) (r, err)
+//@   ensures err == nil ==> r != nil
+//@ trusted func (ModuleReadBucket) getFastscanResultForPath(ctx, path) (r, err)
+//
+//@ func newModuleDep(module, parent, isDirect) (r)
+//@   property C10
+//@   ensures r != nil && r.Module == module && r.parent == parent && r.isDirect == isDirect
+//@   ensures fresh: !old(allocated(r))
+//
+//@ func getModuleDepsRec(ctx, module, visitedOpaqueIDToDescription, parentOpaqueIDs, orderedParentOpaqueIDs, depOpaqueIDToModuleDep, protoFileTracker, isDirect) (err)
+//@   property C10
+//@   modifies visitedOpaqueIDToDescription, parentOpaqueIDs, depOpaqueIDToModuleDep, heap moduleDep.Module, heap moduleDep.parent, heap moduleDep.isDirect, heap protoFileTracker.opaqueIDToProtoFileExists, heap protoFileTracker.protoPathToOpaqueIDMap, heap protoFileTracker.opaqueIDToDescription, heap ModuleCycleError.Descriptions, heap ImportNotExistError.fileInfo, heap ImportNotExistError.importPath, heap ptr.Ref
+//@   requires maps: depOpaqueIDToModuleDep != nil && visitedOpaqueIDToDescription != nil && parentOpaqueIDs != nil
+//@   requires tracker: protoFileTracker != nil && protoFileTracker.opaqueIDToProtoFileExists != nil && protoFileTracker.protoPathToOpaqueIDMap != nil && protoFileTracker.opaqueIDToDescription != nil
+//@   ensures maps-stay: depOpaqueIDToModuleDep != nil && visitedOpaqueIDToDescription != nil && parentOpaqueIDs != nil
+//@   ensures tracker-stays: protoFileTracker.opaqueIDToProtoFileExists != nil && protoFileTracker.protoPathToOpaqueIDMap != nil && protoFileTracker.opaqueIDToDescription != nil
+//@   ensures existing-deps-kept: forall k string :: k in old(depOpaqueIDToModuleDep) ==> k in depOpaqueIDToModuleDep && depOpaqueIDToModuleDep[k] == old(depOpaqueIDToModuleDep)[k]
+//@   canary ensures err != nil
+//@   canary ensures err == nil
+//@   canary ensures forall k string :: k in depOpaqueIDToModuleDep ==> k in old(depOpaqueIDToModuleDep)
+// first hop: every dependency discovered directly from the imports of this module's files is recorded with the isDirect flag of this call and this module as parent
+//@   assert before "parentOpaqueIDs[opaqueID] = struct{}{}" first-hop-flag: forall j int, d ref :: 0 <= j && j < len(newModuleDeps) && d == newModuleDeps[j] ==> cast(*moduleDep, d).isDirect == isDirect && cast(*moduleDep, d).parent == module && cast(*moduleDep, d).Module.OpaqueID() != module.OpaqueID()
+//@   ensures new-deps-are-fresh-records: forall k string, d ref :: k in depOpaqueIDToModuleDep && !(k in old(depOpaqueIDToModuleDep)) && d == depOpaqueIDToModuleDep[k] ==> d != nil && !old(allocated(d))
+//@   ensures old-deps-frame: forall d ref :: old(allocated(d)) ==> cast(*moduleDep, d).isDirect == old(cast(*moduleDep, d).isDirect) && cast(*moduleDep, d).parent == old(cast(*moduleDep, d).parent) && cast(*moduleDep, d).Module == old(cast(*moduleDep, d).Module)
+//@   closure 1 invariant depOpaqueIDToModuleDep != nil
+//@   closure 1 invariant protoFileTracker.opaqueIDToProtoFileExists != nil && protoFileTracker.protoPathToOpaqueIDMap != nil && protoFileTracker.opaqueIDToDescription != nil
+//@   closure 1 invariant forall k string :: k in old(depOpaqueIDToModuleDep) ==> k in depOpaqueIDToModuleDep && depOpaqueIDToModuleDep[k] == old(depOpaqueIDToModuleDep)[k]
+//@   closure 1 invariant forall k string, d ref :: k in depOpaqueIDToModuleDep && !(k in old(depOpaqueIDToModuleDep)) && d == depOpaqueIDToModuleDep[k] ==> d != nil && !old(allocated(d)) && cast(*moduleDep, d).isDirect == isDirect && cast(*moduleDep, d).parent == module && cast(*moduleDep, d).Module.OpaqueID() == k && k != module.OpaqueID()
+//@   closure 1 invariant forall d ref :: old(allocated(d)) ==> cast(*moduleDep, d).isDirect == old(cast(*moduleDep, d).isDirect) && cast(*moduleDep, d).parent == old(cast(*moduleDep, d).parent) && cast(*moduleDep, d).Module == old(cast(*moduleDep, d).Module)
+//@   closure 1 invariant forall j int, d ref :: 0 <= j && j < len(newModuleDeps) && d == newModuleDeps[j] ==> d != nil && !old(allocated(d)) && cast(*moduleDep, d).isDirect == isDirect && cast(*moduleDep, d).parent == module && cast(*moduleDep, d).Module.OpaqueID() != module.OpaqueID()
+//@   loop 0 invariant depOpaqueIDToModuleDep != nil
+//@   loop 0 invariant protoFileTracker.opaqueIDToProtoFileExists != nil && protoFileTracker.protoPathToOpaqueIDMap != nil && protoFileTracker.opaqueIDToDescription != nil
+//@   loop 0 invariant forall k string :: k in old(depOpaqueIDToModuleDep) ==> k in depOpaqueIDToModuleDep && depOpaqueIDToModuleDep[k] == old(depOpaqueIDToModuleDep)[k]
+//@   loop 0 invariant forall k string, d ref :: k in depOpaqueIDToModuleDep && !(k in old(depOpaqueIDToModuleDep)) && d == depOpaqueIDToModuleDep[k] ==> d != nil && !old(allocated(d)) && cast(*moduleDep, d).isDirect == isDirect && cast(*moduleDep, d).parent == module && cast(*moduleDep, d).Module.OpaqueID() == k && k != module.OpaqueID()
+//@   loop 0 invariant forall d ref :: old(allocated(d)) ==> cast(*moduleDep, d).isDirect == old(cast(*moduleDep, d).isDirect) && cast(*moduleDep, d).parent == old(cast(*moduleDep, d).parent) && cast(*moduleDep, d).Module == old(cast(*moduleDep, d).Module)
+//@   loop 0 invariant forall j int, d ref :: 0 <= j && j < len(newModuleDeps) && d == newModuleDeps[j] ==> d != nil && !old(allocated(d)) && cast(*moduleDep, d).isDirect == isDirect && cast(*moduleDep, d).parent == module && cast(*moduleDep, d).Module.OpaqueID() != module.OpaqueID()
+//@   loop 0 invariant forall j int :: 0 <= j && j < $i && second(moduleSet.getModuleForFilePath(ctx, fastscanResult.Imports[j].Path)) == nil && first(moduleSet.getModuleForFilePath(ctx, fastscanResult.Imports[j].Path)).OpaqueID() != opaqueID ==> first(moduleSet.getModuleForFilePath(ctx, fastscanResult.Imports[j].Path)).OpaqueID() in depOpaqueIDToModuleDep
+//@   loop 1 invariant depOpaqueIDToModuleDep != nil && visitedOpaqueIDToDescription != nil && parentOpaqueIDs != nil
+//@   loop 1 invariant protoFileTracker.opaqueIDToProtoFileExists != nil && protoFileTracker.protoPathToOpaqueIDMap != nil && protoFileTracker.opaqueIDToDescription != nil
+//@   loop 1 invariant forall k string :: k in old(depOpaqueIDToModuleDep) ==> k in depOpaqueIDToModuleDep && depOpaqueIDToModuleDep[k] == old(depOpaqueIDToModuleDep)[k]
+//@   loop 1 invariant forall k string, d ref :: k in depOpaqueIDToModuleDep && !(k in old(depOpaqueIDToModuleDep)) && d == depOpaqueIDToModuleDep[k] ==> d != nil && !old(allocated(d))
+//@   loop 1 invariant forall d ref :: old(allocated(d)) ==> cast(*moduleDep, d).isDirect == old(cast(*moduleDep, d).isDirect) && cast(*moduleDep, d).parent == old(cast(*moduleDep, d).parent) && cast(*moduleDep, d).Module == old(cast(*moduleDep, d).Module)
+//@   loop 1 invariant forall j int, d ref :: 0 <= j && j < len(newModuleDeps) && d == newModuleDeps[j] ==> d != nil && !old(allocated(d))
+
+//
+// ---- union of the .proto files of several modules (module_read_bucket.go) ----
+// A .proto path served by two delegates is an error (never the first / last one wins); by none: fs.ErrNotExist;
+// by exactly one: that delegate's file info and index. Any other stat error is returned (first in delegate order).
+//@ func (m *multiProtoFileModuleReadBucket) getFileInfoAndDelegateIndex(ctx, op, path) (r, idx, err)
+//@   property C10
+//@   modifies heap
+//@   reveal h_dserr, h_provides, h_dabsent
+//@   ensures other-error-returned: forall i int :: 0 <= i && i < len(old(m.delegates)) && h_dserr(old(m.delegates)[i], ctx, path) != nil && !h_dabsent(old(m.delegates)[i], ctx, path) && (forall j int :: 0 <= j && j < i ==> h_dserr(old(m.delegates)[j], ctx, path) == nil || h_dabsent(old(m.delegates)[j], ctx, path)) ==> err == h_dserr(old(m.delegates)[i], ctx, path)
+//@   ensures two-providers-is-error: (exists i int, j int :: 0 <= i && i < j && j < len(old(m.delegates)) && h_provides(old(m.delegates)[i], ctx, path) && h_provides(old(m.delegates)[j], ctx, path)) ==> err != nil
+//@   ensures none-is-not-exist: (forall i int :: 0 <= i && i < len(old(m.delegates)) ==> (h_dserr(old(m.delegates)[i], ctx, path) == nil || h_dabsent(old(m.delegates)[i], ctx, path)) && !h_provides(old(m.delegates)[i], ctx, path)) ==> err != nil && typeOf(err) == typeId(*fs.PathError) && cast(*fs.PathError, err).Err == fs.ErrNotExist && cast(*fs.PathError, err).Path == path
+//@   ensures single-provider: forall i int :: 0 <= i && i < len(old(m.delegates)) && h_provides(old(m.delegates)[i], ctx, path) && (forall j int :: 0 <= j && j < len(old(m.delegates)) ==> (h_dserr(old(m.delegates)[j], ctx, path) == nil || h_dabsent(old(m.delegates)[j], ctx, path)) && (j != i ==> !h_provides(old(m.delegates)[j], ctx, path))) ==> err == nil && idx == i && r == first(old(m.delegates)[i].StatFileInfo(ctx, path))
+//@   ensures success-means-single: err == nil ==> 0 <= idx && idx < len(old(m.delegates)) && h_provides(old(m.delegates)[idx], ctx, path) && r == first(old(m.delegates)[idx].StatFileInfo(ctx, path)) && (forall j int :: 0 <= j && j < len(old(m.delegates)) && j != idx ==> !h_provides(old(m.delegates)[j], ctx, path))
+//@   canary ensures err != nil
+//@   canary ensures err == nil
+//@   loop 0 invariant protoFileTracker != nil && protoFileTracker.opaqueIDToProtoFileExists != nil && protoFileTracker.protoPathToOpaqueIDMap != nil && protoFileTracker.opaqueIDToDescription != nil
+//@   loop 0 invariant m.delegates == old(m.delegates)
+//@   loop 0 invariant len(fileInfos) == len(delegateIndexes)
+//@   loop 0 invariant forall k int :: 0 <= k && k < len(delegateIndexes) ==> 0 <= delegateIndexes[k] && delegateIndexes[k] < $i && h_provides(m.delegates[delegateIndexes[k]], ctx, path) && fileInfos[k] == first(m.delegates[delegateIndexes[k]].StatFileInfo(ctx, path))
+//@   loop 0 invariant forall a int, b int :: 0 <= a && a < b && b < len(delegateIndexes) ==> delegateIndexes[a] < delegateIndexes[b]
+//@   loop 0 invariant forall j int :: 0 <= j && j < $i && h_provides(m.delegates[j], ctx, path) ==> (exists k int :: 0 <= k && k < len(delegateIndexes) && delegateIndexes[k] == j)
+//@   loop 0 invariant forall j int :: 0 <= j && j < $i ==> h_dserr(m.delegates[j], ctx, path) == nil || h_dabsent(m.delegates[j], ctx, path)
+//@   loop 0 invariant forall id string :: id in protoFileTracker.opaqueIDToProtoFileExists ==> protoFileTracker.opaqueIDToProtoFileExists[id]
+//@   loop 0 invariant len(fileInfos) == 0 ==> len(protoFileTracker.protoPathToOpaqueIDMap) == 0
+//@   loop 0 invariant len(fileInfos) == 1 ==> (forall p string :: p in protoFileTracker.protoPathToOpaqueIDMap ==> len(protoFileTracker.protoPathToOpaqueIDMap[p]) <= 1)
+//
+//@ func newExistsMultipleModulesError(path, fileInfos) (r)
+//@   property C10
+//@   modifies heap
+//@   ensures r != nil
